@@ -194,9 +194,95 @@ def lookups(rng, files):
     return names[:6]
 
 
+def case_damaged(idx, rng, res):
+    """archives that are missing, empty, cut short or not archives at all, and healthy archives holding
+    such a thing as a nested member: nothing inside them exists - not-found (or, when errors are not
+    ignored, the package error), never another exception; healthy members next to them are still served"""
+    from pysmi.reader import ZipReader
+    from pysmi import error
+    base = tempfile.mkdtemp(prefix='verif-c14z-', dir=env.scratch_root())
+    try:
+        good = io.BytesIO()
+        with zipfile.ZipFile(good, 'w') as z:
+            z.writestr(zipfile.ZipInfo('FOO-MIB.txt', date_time=dt(1500000000)), b'FOO text\n')
+        good = good.getvalue()
+        how = rng.choice(['missing', 'empty', 'cut', 'garbage', 'text', 'nested_cut', 'nested_garbage', 'empty_member'])
+        zp = os.path.join(base, 'a.zip')
+        nested = how.startswith('nested') or how == 'empty_member'
+        if how == 'empty':
+            blob = b''
+        elif how == 'cut':
+            blob = good[:rng.randint(1, len(good) - 1)]
+        elif how == 'garbage':
+            blob = bytes(bytearray(rng.randint(0, 255) for _ in range(rng.randint(1, 300))))
+        elif how == 'text':
+            blob = b'FOO-MIB DEFINITIONS ::= BEGIN END\n'
+        elif nested:
+            inner = {'nested_cut': good[:len(good) // 2], 'nested_garbage': b'PK\x03\x04 not really', 'empty_member': good}[how]
+            buf = io.BytesIO()
+            with zipfile.ZipFile(buf, 'w') as z:
+                z.writestr(zipfile.ZipInfo('BAR-MIB.mib', date_time=dt(1500000000)), b'BAR text\n')
+                z.writestr(zipfile.ZipInfo('inner.zip', date_time=dt(1500000000)), inner)
+                if how == 'empty_member':
+                    z.writestr(zipfile.ZipInfo('EMPTY-MIB.txt', date_time=dt(1500000000)), b'')
+            blob = buf.getvalue()
+        if how != 'missing':
+            with open(zp, 'wb') as f:
+                f.write(blob)
+        strict = rng.random() < 0.4
+        cell = {'damage': how, 'ignoreErrors': not strict}
+        outcomes = {}
+        try:
+            reader = ZipReader(zp, ignoreErrors=not strict)
+        except Exception as exc:
+            res.violation('reader_exception', 'ZipReader(%s archive) raised %r' % (how, exc), replay=cell, kind='zip',
+                          exc=type(exc).__name__)
+            return
+        for name in ('FOO-MIB', 'BAR-MIB', 'EMPTY-MIB', 'NOSUCH-MIB'):
+            res.count('lookups')
+            res.count('lookups_in_damaged_archives')
+            try:
+                info, text = reader.getData(name)
+                outcomes[name] = ('hit', text)
+            except error.PySmiReaderFileNotFoundError:
+                outcomes[name] = ('notfound', None)
+            except error.PySmiError as exc:
+                outcomes[name] = ('pkgerror', str(exc))
+            except Exception as exc:
+                res.violation('reader_exception', 'zip reader over a %s archive raised %s: %s for %r' % (
+                    how, type(exc).__name__, exc, name), replay=cell, exc=type(exc).__name__, kind='zip')
+                outcomes[name] = ('other', None)
+        want = {}
+        if how == 'empty_member':
+            want = {'FOO-MIB': ('hit', 'FOO text\n'), 'BAR-MIB': ('hit', 'BAR text\n')}
+        elif nested:
+            want = {'BAR-MIB': ('hit', 'BAR text\n')}
+        for name, oc in outcomes.items():
+            if oc[0] == 'other':
+                continue
+            if name in want:
+                if oc != want[name]:
+                    res.violation('damaged_neighbour', '%s archive: %s is %r, expected %r' % (how, name, oc, want[name]),
+                                  replay=cell, kind='zip')
+            elif oc[0] == 'hit':
+                res.violation('unrelated_file', '%s archive: asked %r, got %r' % (how, name, oc[1][:40]), replay=cell,
+                              kind='zip')
+            elif oc[0] == 'pkgerror' and not strict:
+                res.violation('reader_exception', '%s archive, errors ignored: %r raised %s' % (how, name, oc[1][:120]),
+                              replay=cell, kind='zip', exc='PySmiError')
+        res.cell('damaged:' + how)
+        res.evals = len(outcomes)
+        res.sig = harness.stable_hash([how, strict, blob[:40] if how != 'missing' else b''])
+        res.nontrivial = True
+    finally:
+        shutil.rmtree(base, ignore_errors=True)
+
+
 def run_case(idx, rng, tier, res):
     if idx % 10 == 9:
         return case_urls(idx, rng, res)
+    if idx % 20 == 8:
+        return case_damaged(idx, rng, res)
     from pysmi.reader import FileReader, ZipReader
     from pysmi import error
     base = tempfile.mkdtemp(prefix='verif-c14-', dir=env.scratch_root())
